@@ -52,20 +52,29 @@ def _perms(s):
     return sorted(set(itertools.permutations(s)))
 
 
+def _family_menu(tier):
+    if tier == "quick":
+        return [("serpentine", 3, 3), ("serpentine", 5, 5), ("serpentine", 9, 5), ("serpentine", 5, 9), ("serpentine", 9, 9),
+                ("spiral", 5, 0), ("spiral", 7, 0), ("spiral", 9, 0), ("comb", 5, 5), ("comb", 9, 9)]  # fmt: skip
+    sizes = (3, 4, 5, 6, 7, 8, 9)
+    return [(f, m, k) for f in ("serpentine", "comb") for m in sizes for k in sizes] + [("spiral", m, 0) for m in sizes]
+
+
 def cases(tier, seed):
     out = []
-    rfm = _shapes_le(12) + _perms((4, 4, 1)) + _perms((2, 2, 4)) + _perms((3, 3, 2)) + [(2, 2, 3), (2, 4, 2)]
-    chs = _shapes_le(12) + [(4, 4, 1), (2, 2, 4), (4, 2, 2), (3, 3, 2)]
-    chs3 = [s for s in _shapes_le(8)] + [(3, 3, 1), (1, 3, 3), (3, 1, 3)]
+    rfm = _shapes_le(12) + _perms((4, 4, 1)) + _perms((2, 2, 4)) + _perms((3, 3, 2)) + [(2, 4, 2)]
+    chs = _shapes_le(9) + _perms((2, 2, 3)) + [(3, 3, 2), (2, 5, 1), (5, 2, 1), (4, 3, 1), (4, 4, 1), (2, 2, 4)]
+    chs3 = _shapes_le(6) + [(2, 2, 2), (3, 3, 1)]
     weight = {}
     if tier == "thorough":
-        rfm += _perms((5, 5, 1)) + [(3, 4, 2), (4, 3, 2), (2, 3, 4), (2, 4, 3), (4, 4, 1), (3, 5, 1), (1, 4, 5)] + _perms((2, 2, 5))
-        chs += [(3, 2, 3), (2, 3, 3), (2, 4, 2), (2, 2, 5), (5, 2, 2), (5, 4, 1)]
+        rfm += _perms((5, 5, 1)) + [(3, 4, 2), (4, 3, 2), (2, 3, 4), (2, 4, 3), (3, 5, 1), (1, 4, 5)] + _perms((2, 2, 5))
+        chs += _shapes_le(12) + [(3, 2, 3), (2, 3, 3), (4, 2, 2), (2, 4, 2), (2, 2, 5), (5, 2, 2), (5, 4, 1)]
+        chs3 += _shapes_le(8) + [(1, 3, 3), (3, 1, 3)]
         weight[(3, 3, 3)] = 10
     for shape in sorted(set(rfm), key=lambda s: (s[0] * s[1] * s[2], s)):
         n = shape[0] * shape[1] * shape[2]
         for bg in ("low", "high"):
-            if bg == "high" and n > 9:
+            if bg == "high" and (n > 9 or (tier == "quick" and n not in (4, 8, 9))):
                 continue
             for lo in range(0, 1 << n, CH_R * 8):
                 out.append(dict(kind="rfm", shape=list(shape), bg=bg, lo=lo, hi=min(1 << n, lo + CH_R * 8), seed=seed))
@@ -78,24 +87,27 @@ def cases(tier, seed):
             out.append(dict(kind="chs", shape=list(shape), lo=lo, hi=min(1 << n, lo + CH_C * 4), seed=seed))
     for shape in sorted(set(chs3), key=lambda s: (s[0] * s[1] * s[2], s)):
         out.append(dict(kind="chs3", shape=list(shape), seed=seed))
-    sizes = (3, 5, 7, 9) if tier == "quick" else (3, 4, 5, 6, 7, 8, 9)
-    for fam in ("serpentine", "spiral", "comb"):
-        for m in sizes:
-            for k in sizes if fam != "spiral" else (0,):
-                for emb in ("flat", "extruded2", "raised+foot", "slab3-middle"):
-                    out.append(dict(kind="family", family=fam, m=m, k=k, emb=emb, seed=seed))
+    for fam, m, k in _family_menu(tier):
+        for emb in ("flat", "extruded2", "raised+foot", "slab3-middle"):
+            # ConnectHolesAndStructures is ~100x slower (unrolled python loops, one XLA compile per op and shape): few shapes only
+            lim = 5 if tier == "quick" else 7
+            connect = max(m, k) <= lim and emb in ("extruded2", "slab3-middle") and (tier == "thorough" or (fam, m) in (("serpentine", 5), ("spiral", 5)))
+            out.append(dict(kind="family", family=fam, m=m, k=k, emb=emb, connect=connect, seed=seed))
     order = {"rfm": 0, "chs": 0, "chs3": 1, "family": 2, "rfm-weight": 3}
     out.sort(key=lambda c: (order[c["kind"]], int(np.prod(c.get("shape", [99]))), c.get("lo", 0)))
     return out
 
 
 def bounds(tier, seed):
+    th = tier == "thorough"
     return {
-        "remove_floating": "all binary volumes of every shape with <= 12 cells, 4x4x1 / 2x2x4 / 3x3x2 in all orientations"
-        + ("; 5x5x1, 2x2x5 (all orientations), 3x4x2, 4x3x2, 2x3x4, 2x4x3, 3x3x3 with <= 10 material cells" if tier == "thorough" else ""),
-        "connect": "all binary volumes of every shape with <= 12 cells, 4x4x1, 2x2x4, 4x2x2, 3x3x2; ternary volumes with fill material on shapes <= 8 cells and 3x3x1 orientations"
-        + ("; 3x2x3, 2x3x3, 2x4x2, 2x2x5, 5x2x2, 5x4x1" if tier == "thorough" else ""),
-        "families": "serpentine(m,k), spiral(m), comb(m,k), m,k in " + ("{3,5,7,9}" if tier == "quick" else "{3..9}") + " x 4 embeddings x 24 orientations, material and inverted",
+        "remove_floating": "all binary volumes of every shape with <= 12 cells, 4x4x1 / 2x2x4 / 3x3x2 in all orientations, 2x4x2"
+        + ("; 5x5x1, 2x2x5 (all orientations), 3x4x2, 4x3x2, 2x3x4, 2x4x3, 3x5x1, 1x4x5, 3x3x3 with <= 10 material cells" if th else ""),
+        "connect": "all binary volumes of every shape with <= " + ("12" if th else "9") + " cells, 2x2x3 (all orientations), 3x3x2, 2x5x1, 5x2x1, 4x3x1, 4x4x1, 2x2x4; ternary volumes with a fill material on shapes <= "
+        + ("8 cells, 3x3x1 orientations" if th else "6 cells, 2x2x2, 3x3x1")
+        + ("; 3x2x3, 2x3x3, 4x2x2, 2x4x2, 2x2x5, 5x2x2, 5x4x1" if th else ""),
+        "families": f"{len(_family_menu(tier))} patterns (serpentine(m,k), spiral(m), comb(m,k), sizes 3..9) x 4 embeddings x up to 24 orientations, material and inverted; ConnectHolesAndStructures on patterns <= "
+        + ("7" if th else "5") + " cells per axis, 2 embeddings, half of the orientations",
         "background_material": "lowest permittivity (default) and explicitly the higher one (<= 9 cells)",
         "seed": seed,
     }
@@ -211,6 +223,16 @@ def _rfm_sig(x, got, shape):
     return f"remove-floating:connected-material-removed:{cls}", dict(lost=int(lost.sum()), depth_of_first_lost_cell=dmin, max_shape=n)
 
 
+def _raise_sig(kind, shape, e):
+    """jax.scipy.signal.convolve2d(mode='same') refuses an image that is smaller than the 3x3 kernel along one axis only"""
+    tname = "remove-floating" if kind.startswith("rfm") else "connect"
+    eff = tuple(shape[:2]) + ((3,) if shape[2] == 1 and tname == "remove-floating" else (shape[2],))
+    thin = any(min(eff[a], eff[b]) < 3 < max(eff[a], eff[b]) for a, b in ((0, 1), (0, 2), (1, 2)))
+    if "smaller than the other in every dimension" in str(e) and thin:
+        return f"{tname}:raises-ValueError:axis<3-next-to-axis>3"
+    return f"{tname}:raises-ValueError:other"
+
+
 def _mk(kind, shape, bg="low", three=False):
     from fdtdx.objects.device.parameters.discrete import ConnectHolesAndStructures, RemoveFloatingMaterial
     from mc.oracles import ptransform as PT
@@ -301,8 +323,12 @@ def run_case(case):
             X = bits.reshape((-1, *shape)).astype(bool)
             # index array handed to the transform: material = index != background index
             P = np.where(X, 1 - bg_idx, bg_idx).astype(np.float64)
-            O = np.asarray(fb(jnp.asarray(P)))
             evals += len(X)
+            try:
+                O = np.asarray(fb(jnp.asarray(P)))
+            except ValueError as e:
+                fail(_raise_sig(kind, shape, e), dict(shape=list(shape), where="exhaustive", error=str(e)[:200]))
+                break
             if O.shape != P.shape:
                 fail(f"{kind}:shape-changed", dict(shape=list(shape), got=list(O.shape)))
                 break
@@ -328,8 +354,12 @@ def run_case(case):
         idx = np.arange(3**ncell)
         P = np.stack([(idx // 3**j) % 3 for j in range(ncell)], axis=1).reshape((-1, *shape)).astype(np.float64)
         for lo, hi in PT.chunks(len(P), CH_C):
-            O = np.asarray(fb(jnp.asarray(P[lo:hi])))
             evals += hi - lo
+            try:
+                O = np.asarray(fb(jnp.asarray(P[lo:hi])))
+            except ValueError as e:
+                fail(_raise_sig("chs3", shape, e), dict(shape=list(shape), where="exhaustive-ternary", error=str(e)[:200]))
+                break
             if O.shape != P[lo:hi].shape or not np.isin(O, (0.0, 1.0, 2.0)).all():
                 fail("chs3:shape-or-index-invalid", dict(shape=list(shape)))
                 break
@@ -343,11 +373,15 @@ def run_case(case):
                 x = ~v if inverted else v
                 tag = f"{case['family']}({case['m']},{case['k']}) {case['emb']} {name}{' inverted' if inverted else ''}"
                 for kind2 in ("rfm", "chs"):
-                    if kind2 == "chs" and (max(shape) > 7 or not (name.endswith("flipx0"))):
-                        continue  # ConnectHolesAndStructures is ~100x slower (unrolled python loops): half of the orientations, <= 7 cells per axis
+                    if kind2 == "chs" and not (case.get("connect") and name.endswith("flipx0")):
+                        continue
                     t, bg_idx = _mk(kind2, shape)
-                    o = np.asarray(t({"params": jnp.asarray(x.astype(np.float64))})["params"])
                     evals += 1
+                    try:
+                        o = np.asarray(t({"params": jnp.asarray(x.astype(np.float64))})["params"])
+                    except ValueError as e:
+                        fail(_raise_sig(kind2, shape, e), dict(shape=list(shape), where=tag, error=str(e)[:200]))
+                        continue
                     if o.shape != shape or not np.isin(o, (0.0, 1.0)).all():
                         fail(f"{kind2}:shape-or-index-invalid", dict(shape=list(shape), where=tag))
                         continue
